@@ -105,9 +105,11 @@ Print Assumptions C03_second_read_empty.
     theorem (Eng/TotalFull.v): for translators whose candidates lie inside their
     segment ([cands_fit], true of the oracle translator) no history reaches an
     undefined operation, so exactly-once holds for ALL histories, and the two
-    read theorems hold in every reachable state. *)
+    read theorems hold in every reachable state.  (Round 3: [plain_chain] = the chains
+    C01_core_total covers, see Properties_C01.v; the theorems (1), (2), (3a)-(3c) above hold
+    for EVERY chain of the model, punctuator chains included.) *)
 Theorem C03_exactly_once_total :
-  forall cfg translate, total_hyps cfg translate -> cands_fit translate ->
+  forall cfg translate, total_hyps cfg translate -> plain_chain cfg -> cands_fit translate ->
   forall ops,
     concat (map read_of (snd (run cfg translate ops))) ++ st_commit (fst (run cfg translate ops))
     = concat (deliveries cfg translate (init_state cfg) ops).
@@ -115,7 +117,7 @@ Proof. exact exactly_once_total. Qed.
 Print Assumptions C03_exactly_once_total.
 
 Theorem C03_read_takes_all_total :
-  forall cfg translate, total_hyps cfg translate -> cands_fit translate ->
+  forall cfg translate, total_hyps cfg translate -> plain_chain cfg -> cands_fit translate ->
   forall ops, let s := fst (run cfg translate ops) in
     read_of (snd (step cfg translate s OpGetCommit)) = st_commit s /\
     st_commit (fst (step cfg translate s OpGetCommit)) = [] /\
@@ -125,7 +127,7 @@ Proof. exact read_takes_all_total. Qed.
 Print Assumptions C03_read_takes_all_total.
 
 Theorem C03_second_read_empty_total :
-  forall cfg translate, total_hyps cfg translate -> cands_fit translate ->
+  forall cfg translate, total_hyps cfg translate -> plain_chain cfg -> cands_fit translate ->
   forall ops, let s := fst (run cfg translate ops) in
     let r1 := step cfg translate s OpGetCommit in
     let r2 := step cfg translate (fst r1) OpGetCommit in
